@@ -11,7 +11,7 @@ func init() {
 	register(&PropDef{
 		ID:    "C12",
 		Level: "other",
-		Explanation: "Retention as decision table plus effect rules: (1) the removal decision touches its inputs only through comparisons; its enumerated paths are evaluated on every order type of definition-exists × (started, completed, canceled) × period{0,+} × (age ? period) × count{0,+} × (rank ? count) and must equal: undefined pipeline → remove; waiting or running → keep; else remove ⇔ (period>0 ∧ age>period) ∨ (count>0 ∧ rank≥count); (2) the rank passed is the index in a fresh copy of the pipeline's list sorted newest-first (comparator orientation checked through the sorter's Less); (3) on the remove edge every path deletes the job from the id index and removes its logs with the job's own id, logs are removed nowhere else, and the file store removes exactly <base>/<jobID>; (4) the persisted snapshot ranges over the id index after the removal loop with no unlock in between and is what is handed to the store. Decides these shapes, not wall-clock ages or that sort.Sort sorts.",
+		Explanation: "Retention as decision table plus effect rules: (1) the removal decision touches its inputs only through comparisons; its enumerated paths are evaluated on every order type of definition-exists × (started, completed, canceled) × period{0,+} × (age ? period) × count{0,+} × (rank ? count) and must equal: undefined pipeline → remove; waiting or running → keep; else remove ⇔ (period>0 ∧ age>period) ∨ (count>0 ∧ rank≥count); (2) the rank passed is the index in a fresh copy of the pipeline's list sorted newest-first (comparator orientation checked through the sorter's Less); (3) on the remove edge every path deletes the job from the id index and removes its logs with the job's own id, logs are removed nowhere else, and the file store removes exactly <base>/<jobID>; (4) the persisted snapshot ranges over the id index after the removal loop with no unlock in between and is what is handed to the store; (5) the load loop builds every stored job (a job skipped at start-up would leave the API and the store while its logs stay forever). Decides these shapes, not wall-clock ages or that sort.Sort sorts.",
 		Trusted:     []string{"sort.Sort sorts", "time.Since", "os.RemoveAll removes the tree", "C13"},
 		NotDecided:  []string{"wall-clock ages", "content of the log directories"},
 		Check:       checkC12,
@@ -48,6 +48,11 @@ func retentionTable(w *World, r *Report) (ro *Roles, dec *ssa.Function, decCall 
 		"has(" + d + ")": "defexists", "arg1.Start": "startptr", "arg1.Completed": "completed", "arg1.Canceled": "canceled",
 		d + ".RetentionPeriod": "period", "time.Since(arg1.Created)": "age", d + ".RetentionCount": "count", "arg0": "index",
 	}
+	// a decision that asks the job's running predicate is evaluated with that predicate's own table
+	runTable, _ := runTableOf(w, ro.RunPred)
+	if runTable != nil {
+		vars[FuncName(ro.RunPred)+"(arg1)"] = "isrunning"
+	}
 	bad, n := 0, 0
 	first := ""
 	for _, de := range []int64{0, 1} {
@@ -60,6 +65,9 @@ func retentionTable(w *World, r *Report) (ro *Roles, dec *ssa.Function, decCall 
 								for _, index := range []int64{0, 1, 2, 3} {
 									n++
 									env := map[string]int64{"defexists": de, "startptr": s, "completed": c, "canceled": x, "period": period, "age": age, "count": count, "index": index}
+									if runTable != nil {
+										env["isrunning"] = runTable[[3]int64{s, c, x}]
+									}
 									p, why := selectPath(res.Paths, vars, env)
 									if p == nil || len(p.Ret) < 1 {
 										r.Undecided("table.retention", fname+": decision table", w.Pos(dec.Pos()), "cannot evaluate the retention decision: "+why)
@@ -101,6 +109,12 @@ func retentionTable(w *World, r *Report) (ro *Roles, dec *ssa.Function, decCall 
 
 func checkC12(w *World, r *Report) {
 	ro, dec, decCall := retentionTable(w, r)
+	// (5) every stored job is registered at start-up: only a registered job can later be removed with its logs
+	if lf, mc := loadAnchors(w); lf != nil {
+		loadEveryJob(w, r, "load.every-stored-job", lf, mc)
+	} else {
+		r.Undecided("load.every-stored-job", "load loop", "-", "load function not found")
+	}
 	if dec == nil {
 		return
 	}
